@@ -65,6 +65,8 @@ PROP = {  # keyword in subject -> (property, what failed)
  "repeated collateral input": ("C38", "babbage/conway: collateral [c, c] counted twice in the collateral balance"),
  "reach its writer in dispatch order": ("C20", "TcpInterface over an in-memory bearer in a current-thread runtime: dispatch(Send) of StartBatch, Block(64+ segments), Block(2 segments), BatchDone with a pipe that never fills: BatchDone arrived before the second Block (FuturesUnordered yielded after two self-woken futures, the unpolled later send queued for the writer lock first); with a Disconnect dispatched behind the sends the last messages were never written"),
  "shares its slot with an epoch boundary block": ("C42", "synthetic Byron database 00150+00160: read_blocks_from_point(Specific(3240000, hash of the main block at slot-in-epoch 0 of epoch 150)) returned CannotFindBlock: iterate_till_point compared only the EBB, the first block of that slot"),
+ "selects the blocking or non-blocking state": ("C24", "network2 txsubmission State::apply: [Init] + RequestTxIds(false, ..) went to TxIdsBlocking, the spec says TxIdsNonBlocking"),
+ "client's Done while a blocking request": ("C24", "network2 txsubmission State::apply: [Init, RequestTxIds(true, ..)] + Done was rejected, the spec lets the client terminate there"),
  "applies AwaitReply when it waits in CanAwait": ("C23", "send_request_next; request_or_await_next (or recv_while_must_reply) with AwaitReply injected returned Err(InvalidInbound), consumed the message and stayed in CanAwait"),
  "CostModels encodes": ("C06", "conway CostModels{unknown:{3:[1]}} encoded as a0 and decoded with unknown:{}"),
 }
